@@ -1,24 +1,24 @@
 import FsutilModel.DiffPopB
 namespace Fsm.D
 
-variable {P : Type} [DecidableEq P]
+variable {P : Type} [DecidableEq P] {I : Type} [DecidableEq I]
 
-theorem applyEv_delete (O : PathOrd P) (t : TMap P) (p q : P) :
+theorem applyEv_delete (O : PathOrd P) (t : TMap P I) (p q : P) :
     applyEv O t (.delete p) q = if q = p ∨ O.under p q = true then none else t q := rfl
 
-theorem applyEv_add (O : PathOrd P) (t : TMap P) (e : Ent P) (q : P) :
+theorem applyEv_add (O : PathOrd P) (t : TMap P I) (e : Ent P I) (q : P) :
     applyEv O t (.add e) q = if q = e.path then some e
       else if (O.under e.path q && (match t e.path with | some o => o.isDir != e.isDir | none => false)) = true
       then none else t q := rfl
 
-theorem applyEv_modify (O : PathOrd P) (t : TMap P) (e : Ent P) (q : P) :
+theorem applyEv_modify (O : PathOrd P) (t : TMap P I) (e : Ent P I) (q : P) :
     applyEv O t (.modify e) q = if q = e.path then some e
       else if (O.under e.path q && (match t e.path with | some o => o.isDir != e.isDir | none => false)) = true
       then none else t q := rfl
 
 /-- the delete step satisfies the hypotheses of `inv_popL` -/
-theorem popL_delete {O : PathOrd P} {tU : TMap P} {l : Ent P} {ls us : List (Ent P)} {rm rm' : Option P}
-    {t : TMap P} (hi : Inv O tU (l :: ls) us rm t)
+theorem popL_delete {O : PathOrd P} {tU : TMap P I} {l : Ent P I} {ls us : List (Ent P I)} {rm rm' : Option P}
+    {t : TMap P I} (hi : Inv O tU (l :: ls) us rm t)
     (hlt : ∀ u ∈ us, O.lt l.path u.path = true)
     (hrm : ∀ d', rm' = some d' → d' = l.path) :
     Inv O tU ls us rm' (applyEv O t (.delete l.path)) := by
@@ -43,8 +43,8 @@ theorem popL_delete {O : PathOrd P} {tU : TMap P} {l : Ent P} {ls us : List (Ent
     rw [hrm d' hd'] at hu
     rw [applyEv_delete]; simp [hu]
 
-theorem popL_skip {O : PathOrd P} {tU : TMap P} {l : Ent P} {ls us : List (Ent P)} {d : P}
-    {t : TMap P} (hi : Inv O tU (l :: ls) us (some d) t)
+theorem popL_skip {O : PathOrd P} {tU : TMap P I} {l : Ent P I} {ls us : List (Ent P I)} {d : P}
+    {t : TMap P I} (hi : Inv O tU (l :: ls) us (some d) t)
     (hlt : ∀ u ∈ us, O.lt l.path u.path = true) (hu : O.under d l.path = true) :
     Inv O tU ls us (some d) t := by
   apply inv_popL hi hlt
@@ -56,10 +56,10 @@ theorem popL_skip {O : PathOrd P} {tU : TMap P} {l : Ent P} {ls us : List (Ent P
     exact hi.rmok d' hd' l' (by simp [hl']) hu'
 
 /-- the lower-only branch as a whole -/
-theorem popL_branch {O : PathOrd P} {tU : TMap P} {l : Ent P} {ls us : List (Ent P)} {rm : Option P}
-    {t : TMap P} (hi : Inv O tU (l :: ls) us rm t)
+theorem popL_branch {O : PathOrd P} {tU : TMap P I} {l : Ent P I} {ls us : List (Ent P I)} {rm : Option P}
+    {t : TMap P I} (hi : Inv O tU (l :: ls) us rm t)
     (hlt : ∀ u ∈ us, O.lt l.path u.path = true)
-    (k : List (Ent P) → Option P → List (Ev P))
+    (k : List (Ent P I) → Option P → List (Ev P I))
     (IH : ∀ rm' t', Inv O tU ls us rm' t' → ∀ q, (k ls rm').foldl (applyEv O) t' q = tU q) :
     ∀ q, (match rm with
       | some d => if O.under d l.path then k ls rm else .delete l.path :: k ls none
